@@ -4,6 +4,7 @@ package sio
 
 import (
 	"context"
+	"strings"
 	"time"
 
 	"github.com/Comcast/sheens/core"
@@ -187,4 +188,39 @@ func VerifC17Sio() {
 	cancel()
 	time.Sleep(10 * time.Millisecond)
 	verif.Assert("no-goroutine-left-after-cancel", verif.Quiesce() == 0)
+	c17Races()
+}
+
+// c17Races: timer activity never corrupts crew state: no two accesses of the code under test to the same
+// memory, one of them a write, are unordered by happens-before (what the race detector would report).
+func c17Races() {
+	for _, r := range verif.RaceReports() {
+		if verif.Known("C17-sio-changed-unlocked") && c17KnownRace(r) {
+			continue
+		}
+		verif.Note("race: " + r)
+		verif.Assert("no-data-race", false)
+	}
+}
+
+// c17KnownRace: both accesses belong to the crew's change bookkeeping (Crew.changed and its Changed
+// records): the timer goroutine updates it under Crew's mutex while the crew loop (Timers.Add/Cancel,
+// SetMachine, GetChanged, ...) takes no lock at all.
+func c17KnownRace(r string) bool {
+	sides := strings.Split(r[strings.Index(r, ": ")+2:], " / ")
+	if len(sides) != 2 {
+		return false
+	}
+	for _, s := range sides {
+		ok := false
+		for _, fn := range []string{"sio.Timers).changed@", "sio.Crew).change@", "sio.Crew).GetChanged@"} {
+			if strings.Contains(s, fn) {
+				ok = true
+			}
+		}
+		if !ok {
+			return false
+		}
+	}
+	return true
 }
